@@ -170,6 +170,10 @@ def _timeout_ms(ctx, R, T, cls):
     df = ctx.df(f)
     rets = [rn for rn in g.live_nodes() if rn.kind == "stmt" and isinstance(rn.ast, ast.Return)]
     tp, dflt = ("p", f.params[1]), ("attr", ("p", f.params[0]), "_default_transport_timeout_s")
+    whole = T.inline_return(f, {f.params[0]: ("p", f.params[0]), f.params[1]: ("p", f.params[1])}, 1)
+    if _is_ms(whole, tp, dflt) and whole[0] != "phi":
+        R.ok("USB-ms", f.qualname + "|conversion", "ms = int(t * 1000), or int(default * 1000) when t is None", f.loc())
+        rets = []
     for rn in rets:
         t = T.term(f, rn, rn.ast.value)
         ok = _is_ms(t, tp, dflt) and t[0] != "phi"
